@@ -128,10 +128,26 @@ func Run(r *vrt.R, scs []Scenario) {
 		fmt.Sscanf(worker, "%d/%d", &k, &n)
 	}
 	runtime.GOMAXPROCS(1)
+	mine := 0
+	for i := range scs {
+		if i%n == k {
+			mine++
+		}
+	}
 	for i := range scs {
 		if i%n != k {
 			continue
 		}
+		if scs[i].RaceOnly && scs[i].Cfg.Deadline.IsZero() {
+			// Capped scenario lists (C37: hundreds of scenarios, slow race build) share the budget fairly: each scenario
+			// gets an equal slice of what is left, unused time rolls over to the scenarios after it. Without this the
+			// scenarios at the end of the list got no execution at all once the budget was spent.
+			startOnce.Do(func() { deadline = budgetDeadline(r) })
+			if left := time.Until(deadline); left > 0 {
+				scs[i].Cfg.Deadline = time.Now().Add(left / time.Duration(mine))
+			}
+		}
+		mine--
 		runScenario(r, &scs[i])
 	}
 }
